@@ -320,12 +320,16 @@ fn get_non_numeric_filter_func<'a>(
 fn get_user_level_filter_func<'a>(
     resolved_unit_dir_admin_user: PathBuf,
 ) -> Box<dyn Fn(&walkdir::DirEntry, bool) -> bool + 'a> {
+    // the walk of UNIT_DIR_ADMIN lists `users` under its own (unresolved) path even when it is a symbolic link
+    let unit_dir_admin_user = PathBuf::from(UNIT_DIR_ADMIN).join("users");
+
     return Box::new(move |entry, rootless| -> bool {
         // if quadlet generator is run rootless, do not recurse other user sub dirs
         // if quadlet generator is run as root, ignore users sub dirs
         if entry
             .path()
             .starts_with(resolved_unit_dir_admin_user.clone())
+            || entry.path().starts_with(&unit_dir_admin_user)
         {
             if rootless {
                 return true;
